@@ -245,6 +245,19 @@ def eval_affine(r, k, idx, tier="quick", neg=False):
             r.violate(key + "|idempotence", case, f"canonicalize_expr not idempotent: {e} -> {c} -> {cc}")
     except RecursionError:
         r.violate(key + "|nonterminating2", case, f"canonicalize_expr does not terminate on its own output {c}")
+    # matrix form: AffineTransform.from_affine_map either refuses the map (not a pure linear transformation) or the matrix form evaluates identically
+    try:
+        T = AffineTransform.from_affine_map(AffineMap(2, 0, (e,)))
+    except Exception:
+        T = None
+        r.count("from_affine_map_refused")
+    if T is not None:
+        r.count("from_affine_map_accepted")
+        for d in P:
+            gotm = int((T.A @ np.array(d, dtype=np.int_) + T.b)[0])
+            if gotm != ev(t, d):
+                r.violate(key + "|matrix-form", case, f"AffineTransform.from_affine_map({e}) = A {T.A.tolist()} b {T.b.tolist()}: at (d0,d1)={d} the map gives {ev(t, d)}, the matrix form {gotm}")
+                break
     # map level (two results) + xDSL eval agreement
     m = AffineMap(2, 0, (e, AffineDimExpr(1) + e))
     cm = canonicalize_map(m)
